@@ -368,6 +368,21 @@ def h_state_ops(env, N, r, op):
         if op == 'stabilizers':
             st = s.stabilizers
             return (st.gs, st.ps)
+        if op == 'overlap_then_use':
+            # the receiver of an overlap query is used again afterwards (its fields and a list expectation); the overlap
+            # value itself is compared by h_state_kernel (stabilizer_projection_trace), where the recorded finding lives
+            sig = Smod.StabilizerState(conv(g2), ps=conv(p2)).set_r(0)
+            s.expect(sig)
+            return (s.gs, s.ps, s.r, s.expect(Pmod.PauliList(conv(go), conv(po))))
+        if op == 'get_prob_then_use':
+            s.get_prob(conv(bits))
+            return (s.gs, s.ps, s.r, s.expect(Pmod.PauliList(conv(go), conv(po))))
+    if op == 'overlap_then_use':
+        g2 = env.bits('t', (2 * N, 2 * N))
+        p2 = env.signs('t_sign', (2 * N,))
+        env.assume(ref.valid_tableau(g2, p2, N), 'Inv second state')
+    if op == 'get_prob_then_use':
+        bits = env.bits('readout', (N,))
     rn = env.run(lambda: run(Sn, Pn, lambda a: a.copy()))
     rt = env.run(lambda: run(St, Pt, lambda a: tt(env, a)))
     env.goal('numpy_side_no_exception', b_not(rn.raised))
@@ -487,7 +502,7 @@ def jobs(tier):
                 if name == 'stabilizer_projection_trace' and r != 0:
                     continue        # both packages only ever call it with r = 0 (pure receiver); torch indexes out of range otherwise
                 J.append(dict(harness=('c13', 'h_state_kernel'), params=dict(N=N, r=r, name=name), timeout_s=300, max_paths=3000))
-            for op in ('expect_list', 'copy', 'entropy', 'to_map', 'rotate', 'stabilizers'):
+            for op in ('expect_list', 'copy', 'entropy', 'to_map', 'rotate', 'stabilizers') + (('overlap_then_use', 'get_prob_then_use') if (r == 0 and N == 1) else ()):
                 if op == 'entropy' and r == N:
                     continue
                 J.append(dict(harness=('c13', 'h_state_ops'), params=dict(N=N, r=r, op=op), timeout_s=300, max_paths=3000))
